@@ -23,7 +23,7 @@ ASSUMPTIONS = [
 EXHAUSTIVE = {"flag": False, "scope": "histories and bursts are sampled; widths 1-8 and 2-3 sharers are enumerated"}
 ANCHOR_FUNCS = ["alias_tracker:_AliasTracker.register", "alias_tracker:_AliasTracker.unregister", "alias_tracker:_AliasTracker.check_writable",
 	"vector:Vector.__setitem__", "vector:Vector._promote", "table:Table.__setattr__"]
-REQUIRED_STRATA = {"steps": 2000, "burst-writes": 1000, "sharing": 30}
+REQUIRED_STRATA = {"steps": 2000, "burst-writes": 1000, "sharing": 30, "derived": 150}
 
 
 def run_history(chk, spec):
@@ -118,6 +118,7 @@ def run_sharing(chk, spec):
 	k, n = spec["sharers"], spec["n"]
 	tup = tuple(range(n))
 	vs = [Vector(tup) for _ in range(k)]
+	[pool.mark_caller_built(x, id(tup)) for x in vs]     # (a comprehension: a for-loop variable would keep the last sharer alive)
 	chk.judged("sharing", ("sharing", k, n, spec["release"]))
 	snaps = [list(v) for v in vs]
 	o = call(lambda: vs[0].__setitem__(0, 99))
@@ -160,7 +161,43 @@ def run_sharing(chk, spec):
 		chk.fail("the write takes effect", "alias/write-lost", f"{list(target)}")
 
 
-RUNNERS = {"history": run_history, "burst": run_burst, "sharing": run_sharing}
+def run_derived(chk, spec):
+	"""every way of deriving a vector from v must give it storage of its own: both stay writable"""
+	import random
+	rng = random.Random(spec["seed"])
+	n = spec["n"]
+	kind = spec["kind"]
+	vals = {"int": [rng.randrange(9) for _ in range(n)], "str": [rng.choice("abc") for _ in range(n)], "float": [rng.random() for _ in range(n)]}[kind]
+	v = Vector(list(vals), name="v")
+	ops = {
+		"copy": lambda: v.copy(), "slice-full": lambda: v[:], "slice-0-n": lambda: v[0:n], "slice-0-big": lambda: v[0:n + 5], "slice-neg": lambda: v[-n:],
+		"slice-step1": lambda: v[::1], "mask-all": lambda: v[[True] * n], "mask-all-vector": lambda: v[Vector([True] * n)], "T": lambda: v.T, "lshift-empty": lambda: v << [],
+		"rlshift-empty": lambda: [] << v, "lshift-empty-tuple": lambda: v << (), "sort": lambda: v.sort_by(), "fillna": lambda: v.fillna(vals[0]), "dropna": lambda: v.dropna(),
+		"pos": lambda: +v, "cast-same": lambda: v.cast(type(vals[0])), "to_object": lambda: v.to_object(), "index-all": lambda: v[list(range(n))],
+		"table-column": lambda: Table([v]).cols()[0], "table-column-slice": lambda: Table([v])[0:n].cols()[0], "unique": lambda: Vector(sorted(set(vals))).unique(), "copy-of-copy": lambda: v.copy().copy(),
+		"rshift-column": lambda: (v >> v).cols()[1], "lshift-none-then-slice": lambda: (v << [])[0:n],
+	}
+	o = call(ops[spec["op"]])
+	chk.judged("derived", ("derived", spec["op"], kind, n))
+	if not o.ok or not isinstance(o.value, Vector) or len(o.value) == 0:
+		chk.skip("derived-op-unavailable")
+		return
+	w = o.value
+	shared = w.__dict__.get("_underlying") is v.__dict__.get("_underlying")
+	for target, label in ((w, "result"), (v, "operand")):
+		r = call(lambda: target.__setitem__(0, target._underlying[0]))
+		if not r.ok and isinstance(r.exc, AliasError):
+			chk.fail("copies, slices, operation results and table columns share storage with no other live vector and are always writable",
+				f"alias/library-result-shares-storage/{spec['op']}", f"w = v.{spec['op']} (n={n}, {kind}): writing to the {label} raised AliasError; storage shared: {shared}")
+			return
+	if shared:
+		chk.fail("copies, slices, operation results and table columns share storage with no other live vector", f"alias/library-result-shares-storage/{spec['op']}",
+			f"w = v.{spec['op']} (n={n}, {kind}) shares v's storage tuple")
+
+
+DERIVED_OPS = ["copy", "slice-full", "slice-0-n", "slice-0-big", "slice-neg", "slice-step1", "mask-all", "mask-all-vector", "T", "lshift-empty", "rlshift-empty", "lshift-empty-tuple",
+	"sort", "fillna", "dropna", "pos", "cast-same", "to_object", "index-all", "table-column", "table-column-slice", "unique", "copy-of-copy", "rshift-column", "lshift-none-then-slice"]
+RUNNERS = {"history": run_history, "burst": run_burst, "sharing": run_sharing, "derived": run_derived}
 
 
 def setup(chk):
@@ -174,6 +211,10 @@ def run(chk):
 			for release in ("del-gc", "del", "cycle"):
 				for rep in range(2):
 					chk.case("sharing", {"sharers": k, "n": n, "release": release}, "sharing")
+	for op in DERIVED_OPS:
+		for kind in ("int", "str", "float"):
+			for n in (1, 2, 5):
+				chk.case("derived", {"op": op, "kind": kind, "n": n, "seed": rng.randrange(10**9)}, "derived")
 	idx = 0
 	for w in range(1, 9):
 		for n in (1, 2, 3):
